@@ -1,6 +1,9 @@
 #!/usr/bin/env python3
 """MANIFEST.setup_cmd: build the framework offline from files on disk only
-(Lean libraries + native drivers, sanitized libxmp from /repo's working tree)."""
+(Lean libraries + native drivers for every registered check, sanitized libxmp
+from /repo's working tree).  Each check rebuilds what it needs anyway; this
+only warms the caches."""
+import json
 import os
 import re
 import sys
@@ -10,15 +13,27 @@ import vlib
 
 
 def main():
+    man = json.load(open(os.path.join(vlib.VERIF, "MANIFEST.json")))
+    props = [c["property_id"] for c in man["checks"]]
     lf = open(os.path.join(vlib.LEAN, "lakefile.toml")).read()
-    exes = re.findall(r'\[\[lean_exe\]\]\s*name\s*=\s*"(\w+)"', lf)
-    ok, out = vlib.lean_build(["XmpModel", "XmpProofs", "XmpProps"] + exes)
+    exes = set(re.findall(r'\[\[lean_exe\]\]\s*name\s*=\s*"(\w+)"', lf))
+    targets = []
+    for p in props:
+        if os.path.exists(os.path.join(vlib.LEAN, "XmpProps", p + ".lean")):
+            targets.append("XmpProps." + p)
+        # drivers named in the check module
+        src = open(os.path.join(vlib.VERIF, "tools", "checks", p.lower() + ".py")).read()
+        for d in set(re.findall(r'"(drv_\w+)"', src)):
+            if d in exes:
+                targets.append(d)
+    targets = sorted(set(targets))
+    ok, out = vlib.lean_build(targets)
     print(out[-1500:])
     if not ok:
-        print("ERROR lake build failed")
+        print("ERROR lake build failed for " + " ".join(targets))
         return 2
     vlib.build_repo("asan")
-    print("setup ok")
+    print("setup ok: " + " ".join(targets))
     return 0
 
 
